@@ -17,7 +17,7 @@ def mutate_async(rng, s):
     they are queued behind the activation like any nested event"""
     if rng.random() < 0.5:
         s.ops = [s.ops[0], ("activate",)] + list(s.ops[1:])
-    ent = [c for c in s.cbs if c.group == "enter"]
+    ent = [c for c in s.cbs if c.group == "enter" and c.style not in ("attr", "evref")]
     evs = sorted({e for t in s.trans for e in t.events})
     if ent and evs and s.cur0 is None and rng.random() < 0.5:
         c = rng.choice(ent)
@@ -121,8 +121,105 @@ def nr_monitor(s, a, rt):
     return fails
 
 
+def probe_attach_inside_callback(seed):
+    """Run-to-completion while the set of listeners changes *during* a transition: a callback attaches a listener
+    (whose callbacks live in other groups than the one that is executing) and then sends an event. The nested send
+    must still return None and the sent event must run after the outer transition has completed — attaching a
+    listener is not a way out of the queue. Direct Spec on the implementation (the model has one machine per
+    operation; DESIGN 11.4)."""
+    import random
+    import warnings
+    from statemachine import State, StateMachine
+    fails = []
+    rng = random.Random(f"{seed}:attach-inside")
+    for k in range(24):
+        grp = rng.choice(["before", "on", "after", "enter", "exit"])
+        lgrp = rng.choice([g for g in ["before", "on", "after", "enter", "exit"] if g != grp])
+        is_async = rng.random() < 0.3
+        log = []
+
+        def mk_listener():
+            names = {"before": "before_transition", "on": "on_transition", "after": "after_transition",
+                     "enter": "on_enter_state", "exit": "on_exit_state"}
+
+            def hook(self, event=None):
+                log.append(("L", str(event)))
+            return type("Late", (), {names[lgrp]: hook})()
+
+        def body(self):
+            log.append(("begin", "go"))
+            self.add_listener(mk_listener())
+            r = self.send("ping")
+            if is_async:
+                return r
+            log.append(("nested-returned", repr(r)))
+            return "outer"
+
+        async def abody(self):
+            log.append(("begin", "go"))
+            self.add_listener(mk_listener())
+            r = await self.send("ping")
+            log.append(("nested-returned", repr(r)))
+            return "outer"
+
+        ns = {}
+        with warnings.catch_warnings():
+            warnings.simplefilter("ignore")
+            a, b = State(initial=True), State()
+            ns.update(a=a, b=b)
+            kw = {grp: "cb"} if grp in ("before", "on", "after") else {}
+            ns["go"] = a.to(b, **kw)
+            ns["ping"] = b.to.itself(internal=True, on="pong") | a.to.itself(internal=True, on="pong")
+            if grp == "enter":
+                ns["on_enter_b"] = abody if is_async else body
+            elif grp == "exit":
+                ns["on_exit_a"] = abody if is_async else body
+            else:
+                ns["cb"] = abody if is_async else body
+
+            def pong(self):
+                log.append(("pong", self.current_state.id))
+                return "pong"
+
+            def after_go(self):
+                log.append(("after_go", ""))
+            ns["pong"] = pong
+            ns["after_go"] = after_go
+            M = type(StateMachine)("AttachInside", (StateMachine,), ns)
+            try:
+                sm = M()
+                if is_async:
+                    import asyncio
+
+                    async def drive():
+                        await sm.activate_initial_state()
+                        return await sm.send("go")
+                    asyncio.run(drive())
+                else:
+                    sm.send("go")
+            except Exception as e:
+                fails.append(f"attach in `{grp}` (listener has `{lgrp}`, async={is_async}): {type(e).__name__}: {e}")
+                continue
+        where = f"attach in `{grp}` (listener has `{lgrp}`, async={is_async})"
+        ret = [x[1] for x in log if x[0] == "nested-returned"]
+        if ret != ["None"]:
+            fails.append(f"{where}: the nested send returned {ret}, expected [None]")
+        names = [x[0] for x in log]
+        if "pong" not in names or "after_go" not in names:
+            fails.append(f"{where}: log {log}")
+        elif names.index("pong") < names.index("after_go"):
+            fails.append(f"{where}: the nested event ran before the outer transition finished: {names}")
+        elif [x[1] for x in log if x[0] == "pong"] != ["b"]:
+            fails.append(f"{where}: the nested event saw state {[x[1] for x in log if x[0] == 'pong']}")
+    return fails
+
+
 def run(ctx):
     lean_obligations(ctx)
+    pf = probe_attach_inside_callback(ctx.seed)
+    ctx.coverage["attach_inside_callback_cases"] = 24
+    if pf:
+        ctx.violation(ctx.write_replay("attach_inside_callback.txt", "\n".join(pf) + "\n"), pf[0])
     ctx.coverage["rule"] = ("seeded random machines (1-6 states, nested sends placed in any action group "
                             "incl. initial enter, rtc on/off, sync/async); non-trivial = at least one nested "
                             "send was actually issued from a callback; distinct = hash of the scenario text")
